@@ -2,7 +2,7 @@
 import ast
 import re
 
-from ..astutil import calls_in, call_name, get_kwarg, norm, walk_no_nested
+from ..astutil import calls_in, call_name, get_kwarg, norm, try_fold, walk_no_nested
 from ..callgraph import CallGraph, bind_args
 from ..cfg import cfg_of
 from ..core import AnalysisError
@@ -18,6 +18,8 @@ def run(repo, rep):
     rep.clause("C12-b", "--cpu-tensor-alignment reaches every arena allocation, the live-range alignment and the alignment verifier")
     rep.clause("C12-c", "OfflineMemoryAllocation = [version, n_subgraphs, n_tensors] + per-subgraph offsets indexed like the tensor table; -1 default; only arena tensors get offsets")
     rep.clause("C12-d", "in-place reuse of an input's buffer is allowed only for a tensor with exactly one consumer entry (a subgraph-output marker counts)")
+    rep.clause("C12-e", "variable tensors stay live from time 0 to the end of the inference; subgraph outputs are never moved to fast storage (the None consumer marker is looked for in the whole consumer list)")
+    rep.clause("C12-f", "the ethos-u custom operator gets its fixed operands in the driver's positional order: command stream, flash (weights), scratch (arena), fast scratch, then the IFMs")
     rep.undecided("that arena tensors do not overlap while live under the output operator order; that the scratch tensor spans every touched byte (concrete addresses)")
     rule_extents(repo, rep, "C12-a")
     sw = repo.mod("stats_writer")
@@ -149,3 +151,54 @@ def rule_fuse(repo, rep):
     dma = [n for n in ast.walk(f) if isinstance(n, ast.If) and "len(ifm.consumer_list) > 1" in norm(n.test)]
     rep.check(len(dma) == 1, "C12-d", f"{LR}:_get_ifm_to_fuse", "memcpy reuse is refused when the input has more than one consumer entry", "")
     rep.floor("C12-d", 2)
+
+    # ---------------------------------------------------------------- e
+    from ..exprnorm import linear, sub
+
+    lrm = repo.mod("live_range")
+    cp = lrm.func("extract_live_ranges_from_cascaded_passes")
+    site = "ethosu/vela/live_range.py:extract_live_ranges_from_cascaded_passes"
+    var = [n_ for n_ in ast.walk(cp) if isinstance(n_, ast.If) and norm(n_.test) == "tens.is_variable"]
+    if len(var) != 1:
+        raise AnalysisError("variable-tensor handling not found in extract_live_ranges_from_cascaded_passes")
+    mu = [c for c in calls_in(var[0], ".mark_usage")]
+    outs = [l for l in cp.body if isinstance(l, ast.For) and norm(l.iter) == "sg.output_tensors"]
+    tmark = norm(calls_in(outs[0], ".mark_usage")[0].args[0]) if outs and calls_in(outs[0], ".mark_usage") else None
+    ok = len(mu) == 1 and tmark is not None and len(mu[0].args) == 2 and try_fold(mu[0].args[0]) == 0
+    if ok:
+        d = sub(linear(mu[0].args[1]), linear(ast.parse(tmark, mode="eval").body))
+        ok = set(d) <= {""} and d.get("", 0) >= 1
+    rep.check(ok, "C12-e", site, f"variable tensors are marked live over [0, {tmark} + 1) (up to the time the subgraph outputs are marked)",
+              f"`{norm(mu[0]) if mu else ''}`: the range ends at its last reader and the state tensor's bytes are handed to later tensors")
+    mk = lrm.func("LiveRange.mark_usage")
+    d = {norm(s_.targets[0]): norm(s_.value) for s_ in ast.walk(mk) if isinstance(s_, ast.Assign)}
+    rep.check(d.get("op_time_end") == "op_time + op_length" and d.get("self.end_time") == "max(self.end_time, op_time_end)" and d.get("self.start_time") == "min(self.start_time, op_time_start)", "C12-e",
+              "ethosu/vela/live_range.py:LiveRange.mark_usage", "mark_usage(t, n) extends the range to cover [t, t + n]", str(d))
+    sc = repo.mod("scheduler").func("Scheduler.use_fast_storage_for_feature_maps")
+    site = "ethosu/vela/scheduler.py:Scheduler.use_fast_storage_for_feature_maps"
+    mv = [n_ for n_ in ast.walk(sc) if isinstance(n_, ast.If) and any(isinstance(x, ast.Assign) and norm(x.targets[0]) == "ofm_tens.mem_type" for x in n_.body)]
+    if len(mv) != 1:
+        raise AnalysisError("use_fast_storage_for_feature_maps: the guard of the move to fast storage was not found")
+    from ..exprnorm import conjuncts
+
+    cj = {norm(x) for x in conjuncts(mv[0].test)}
+    whole = {"not any((cons is None for cons in ofm_tens.consumer_list))", "not any(cons is None for cons in ofm_tens.consumer_list)", "None not in ofm_tens.consumer_list",
+             "all((cons is not None for cons in ofm_tens.consumer_list))", "all(cons is not None for cons in ofm_tens.consumer_list)"}
+    rep.check(bool(cj & whole), "C12-e", site, "a feature map is moved to fast storage only if no entry of its consumer list is the subgraph-output marker None",
+              f"guard is `{norm(mv[0].test)}`: the marker is looked for at one position only, so an output that also feeds a later op is retyped and its CPU-side twin loses its address")
+    rep.floor("C12-e", 3)
+
+    # ---------------------------------------------------------------- f
+    ns = repo.mod("npu_serialisation")
+    rw = ns.func("rewrite_npu_call_ops")
+    site = "ethosu/vela/npu_serialisation.py:rewrite_npu_call_ops"
+    lp = [l for l in ast.walk(rw) if isinstance(l, ast.For) and isinstance(l.iter, ast.List) and any("command_stream_tensor" in norm(e) for e in l.iter.elts)]
+    if len(lp) != 1:
+        raise AnalysisError("rewrite_npu_call_ops: operand insertion loop not found")
+    ins = [c for c in calls_in(lp[0], "op.inputs.insert")]
+    front = len(ins) == 1 and try_fold(ins[0].args[0]) == 0 and norm(ins[0].args[1]) == norm(lp[0].target)
+    order = [norm(e).split(".")[-1] for e in lp[0].iter.elts][::-1] if front else []
+    abi = ["command_stream_tensor", "flash_tensor", "scratch_tensor", "scratch_fast_tensor"]
+    rep.check(order == abi, "C12-f", site, "operands are pushed to the front in reverse, giving [command stream, flash, scratch, scratch_fast, ...]",
+              f"resulting operand order {order}: the driver binds operand 2 as the arena base and operand 3 as fast scratch by position")
+    rep.floor("C12-f", 1)
